@@ -112,6 +112,14 @@ def transplant(tree, placed):
 
 
 def prepare_slot():
+    # the target directory of the regenerated crates collects the artefacts of every scratch tree ever built: keep it below ~12 GiB
+    tdir = os.path.join(common.BUILD, 'c07-target')
+    try:
+        used = int(subprocess.run(['du', '-sk', tdir], stdout=subprocess.PIPE, stderr=subprocess.DEVNULL, text=True).stdout.split()[0])
+        if used > 12 * 1024 * 1024:
+            shutil.rmtree(tdir, ignore_errors=True)
+    except (IndexError, ValueError):
+        pass
     shutil.rmtree(SLOT, ignore_errors=True)
     os.makedirs(SLOT)
     tree = os.path.join(SLOT, 'repo')
